@@ -142,7 +142,7 @@ class Scn:
 def cap_size(n, high, chunk):
     """keep the number of system calls of one operation below a few thousand"""
     per = max(1, min(high, chunk))
-    return min(n, max(3000, 400 * per)) if per < 2048 else n
+    return min(n, max(600, 150 * per)) if per < 2048 else n
 
 
 def read_lengths(rng, chunk, low, high):
@@ -357,17 +357,29 @@ def gen_file(rng, sid):
     return s
 
 
-FIXED = [
-    # corpus: hand-made boundary scenarios that run first
-    ("r", ["fd pipe_r 0 100", "chan", "low 10", "high 64", "read 0 200 0", "pw 5", "waitdrain", "pw 30", "waitdrain", "pw 100",
-           "waitdrain", "pw 65", "wait 0", "read 1 50 0", "pw 20", "waitdrain", "pc", "end"]),
-]
+def gen_ebadf(rng, sid):
+    """witness of the defect fixed in /repo (fix: cleanup after EBADF reported success): writes on a descriptor that is
+    not open for writing fail with EBADF; the operations queued behind the failing one are cleaned up"""
+    s = Scn(sid, 256)
+    s.kind = "pipe_r"
+    s.add("fd pipe_r 0 0")
+    s.add("chan")
+    woff = rng.range(0, 1 << 20)
+    for k in range(rng.choice([2, 3, 4])):
+        sz = rng.range(1, 3000)
+        s.op(True, sz, hs=0, frags=[sz], woff=woff)
+        woff += sz
+    if rng.chance(1, 2):
+        s.op(False, rng.range(1, 100))
+    s.add("pc")
+    s.add("end")
+    return s
 
 
 def scenarios(ctx):
     rng = ctx.rng
     n = 150 if ctx.tier == "quick" else 1500
-    out = []
+    out = [gen_ebadf(rng, 100000 + k) for k in range(6)]
     for i in range(n):
         r = i % 10
         big = (i % 37 == 5)
@@ -525,7 +537,9 @@ def judge(s, ev, base):
                 fail("write_conservation", "%s: accepted %d + reported unwritten %d != submitted %d" % (tag, moved, rem, o["length"]))
     # bytes that reached the descriptor
     if s.kind in ("pipe_w", "sock") and ev["R"] is not None and any(o["write"] for o in s.ops.values()):
-        if ev["R"][0] != len(wexpect) or ev["R"][1] != (zlib.crc32(wexpect) & 0xffffffff):
+        peer_closed = any(a["what"] == "pc" for a in ev["A"])     # a peer that hung up early has read only a prefix
+        exp = wexpect[:ev["R"][0]] if peer_closed else wexpect
+        if ev["R"][0] != len(exp) or ev["R"][1] != (zlib.crc32(exp) & 0xffffffff):
             fail("write_conservation", "peer received %d bytes; expected the %d bytes accepted by the write calls, in order" %
                  (ev["R"][0], len(wexpect)))
     if s.kind == "file_w" and ev["F"] is not None:
@@ -557,8 +571,13 @@ def judge(s, ev, base):
     if ev["Z"].startswith("ok"):
         if len(ev["C"]) != 1:
             fail("cleanup_once", "cleanup handler ran %d times" % len(ev["C"]))
-        elif ev["H"] and ev["C"][0]["seq"] < max(h["seq"] for h in ev["H"]):
-            fail("cleanup_once", "cleanup handler ran before the last I/O handler invocation")
+        else:
+            # operations submitted after close/stop are rejected without touching the descriptor; their (ECANCELED)
+            # invocation is not ordered with the cleanup handler, which may long have run
+            pre = [i for i in s.ops if aseq.get(("write" if s.ops[i]["write"] else "read", i), 0) < close_seq]
+            late = [h for h in ev["H"] if h["op"] in pre and h["seq"] > ev["C"][0]["seq"]]
+            if late:
+                fail("cleanup_once", "cleanup handler ran before an I/O handler invocation of operation %d" % late[0]["op"])
     return bad
 
 
@@ -582,7 +601,8 @@ def coq_case(s, o, ev):
     stop = any(a["what"] == "stop" for a in ev["A"])
     close = any(a["what"] == "close" for a in ev["A"])
     cfg = "(Build_cfg %d false)" % s.chunk
-    return cfg, opt, rs, ob, ("true" if stop else "false"), ("true" if close else "false")
+    fderr = any(n["ret"] == -9 for n in ev["N"])
+    return cfg, opt, rs, ob, ("true" if stop else "false"), ("true" if close else "false") + (" true" if fderr else " false")
 
 
 def model_check(cases):
